@@ -5,7 +5,7 @@ from ..engine import Outcome, Verdict, crash_verdicts, infra_problem
 
 ID = "C05"
 RULE = ("case = (loop program composed from R7RS 3.5 tail contexts, nesting <= 3, self/mutual recursion, fixed/rest/optional arity, apply; "
-        "or a non-tail recursion of drawn depth) x (stack ceiling variant: tiny=32768 slots / default=1024000 slots, run in the main "
+        "or a non-tail recursion of drawn depth -- plain, through apply / call-with-values, inside a Scheme callback of a C procedure (sort comparator, hash function) -- or one call spreading an n-element list) x (stack ceiling variant: tiny=32768 slots / default=1024000 slots, run in the main "
         "thread or in green threads with tape-chosen slice lengths, collection points incl. right after heap/stack growth, interrupt at a "
         "tape-chosen tick). A foreign probe called from the loop body records the VM-published stack top and the stack object length. "
         "Non-trivial: a tail loop of >= 20 x ceiling iterations (tiny) or >= 200000 (default) that was sampled >= 8 times, or a recursion "
